@@ -394,7 +394,7 @@ fn main() {
     let mut ev = Evidence::new(
         &args,
         "inputs: every char-boundary prefix of a fixed set of seed files + proptest-selected mutations of all repository .incn files \
-         (15 mutation families) + the directed escape leg (every literal kind x escape introducer x 0-3 following scalars x 3 placements) + the committed fz_frontend corpus; each input is pushed through lex/parse/typecheck/format/emit-rust \
+         (15 mutation families) + the directed numeric-literal leg (integer-width boundaries, spellings, exponents x 6 positions) + the directed escape leg (every literal kind x escape introducer x 0-3 following scalars x 3 placements) + the committed fz_frontend corpus; each input is pushed through lex/parse/typecheck/format/emit-rust \
          and every diagnostic through format_error/render_miette/LSP conversion. Non-trivial: the input passes the lexer (reaches the \
          parser) or yields a diagnostic with a non-empty span. Distinct = hash of the input text.",
     );
@@ -541,6 +541,14 @@ fn main() {
     }
     run.ev.set("seed_backslash_splice_inputs", json!(spl.len()));
     for chunk in spl.chunks(20_000) {
+        run.batch(chunk.to_vec());
+    }
+
+    // ---- leg A3: directed numeric-literal leg (boundary values of every integer width, spellings, radix prefixes,
+    //      extreme exponents, malformed shapes) x six syntactic positions
+    let nums = front::numeric_cases();
+    run.ev.set("numeric_leg_inputs", json!(nums.len()));
+    for chunk in nums.chunks(20_000) {
         run.batch(chunk.to_vec());
     }
 
